@@ -16,7 +16,13 @@ Record lleaf := {
   lf_id : nat; lf_inst : option string;
   lf_elem : list levent; lf_fixed : list levent;      (* in the order build() registers them *)
   lf_stems : list string; lf_maxtime : Q; lf_always : option bool;
+  lf_eqafter : option Q;                              (* a leaf that overrides atEquilibrium(t) by t >= this time, whatever its maximum time *)
   lf_requests : list string }.                        (* parameters that build() requires (no default) *)
+
+(* the threshold of the leaf's own equilibrium test: Process.atEquilibrium compares with maximumTime(), an
+   overriding leaf with its own time (an override that never holds is lf_always = Some false);
+   maximumTime() of the tree is computed from lf_maxtime in either case *)
+Definition lf_threshold (l : lleaf) : Q := match lf_eqafter l with Some q => q | None => lf_maxtime l end.
 
 Fixpoint tmap {A B} (f : A -> B) (t : ptree A) : ptree B :=
   match t with
@@ -48,12 +54,12 @@ Definition resolve_ex (params : dict Q) (names : list string) (one : nat) (ex : 
   {| pd_id := lf_id l; pd_inst := lf_inst l;
      pd_elem := map (resolve_event (lf_inst l) params names 0) (lf_elem l) ++ extra_events one ex (lf_id l);
      pd_fixed := map (resolve_event (lf_inst l) params names 0) (lf_fixed l);
-     pd_loci := lf_stems l; pd_maxtime := lf_maxtime l; pd_always := lf_always l |}.
+     pd_loci := lf_stems l; pd_maxtime := lf_threshold l; pd_always := lf_always l |}.
 Definition resolve (params : dict Q) (names : list string) (l : lleaf) : procdesc :=
   {| pd_id := lf_id l; pd_inst := lf_inst l;
      pd_elem := map (resolve_event (lf_inst l) params names 0) (lf_elem l);
      pd_fixed := map (resolve_event (lf_inst l) params names 0) (lf_fixed l);
-     pd_loci := lf_stems l; pd_maxtime := lf_maxtime l; pd_always := lf_always l |}.
+     pd_loci := lf_stems l; pd_maxtime := lf_threshold l; pd_always := lf_always l |}.
 
 (* the first required parameter that is missing, in build order *)
 Fixpoint first_missing (params : dict Q) (ls : list lleaf) : option string :=
